@@ -336,7 +336,8 @@ class Handler(Contract):
                     # dimension mismatch: contract InUnits)
                     out.append(("C01: values of %s are merged only after conversion to one unit" % (grp,), True))
                     continue
-                out.append(("C01: values of %s are merged only when their units are equal" % (grp,),
+                tag_ = "C01/C19" if self.numpy in ("numpy.isclose", "numpy.allclose") else "C01"
+                out.append(("%s: values of %s are merged only when their units are equal" % (tag_, grp),
                             units_equal(it, members[0].fields["units"], x.fields["units"])))
         return out
 
